@@ -127,6 +127,14 @@ CLAIMED = {
              "(uses the proved UTF-8 prefix/boundary lemma); owned copies equal originals. PARTIAL: survival of owned copies "
              "after the buffer is overwritten or dropped is observed on the implementation, not proved. Tie: 288k inputs.",
         ref="7-C16", technique="Coq proof (entry points coincide on char boundaries) + impl-vs-impl differential check; owned-copy independence by observation"),
+    "C19": dict(
+        text="Theorems C19_new/C19_v1/C19_unix/C19_pair/C19_same_endpoints (Props/C19.v) state the argument-to-role mapping of "
+             "every constructor and From impl for all values; in Gallina they are reflexivity facts about Model/Ctor.v, so the "
+             "assurance here comes from the tie: the real IPv4::new / IPv6::new / Unix::new / new_tcp4 / new_tcp6 / From impls are "
+             "compared field by field with the model and with the inputs on 8k tuples whose components are pairwise different "
+             "(all four SocketAddr combinations, flow-info and scope set, Unix paths differing in one byte).",
+        ref="7-C19", technique="Coq statements (trivial) + differential correspondence and field-by-field oracle on constructors",
+        note=TIE + " For this property the proof layer is nearly vacuous (immutable records); the check is, in effect, exhaustive-by-shape differential testing."),
 }
 
 NOT_YET = "not yet claimed: model, theorems and correspondence stream for this property are still being built (DESIGN 10.4)"
